@@ -139,25 +139,25 @@ NOT_YET = {}
 
 # metamorphic relations over HOW the API is used, added after the seeded-change rounds (DESIGN.md 10.2, 10.7); appended to the exploration text
 USAGE = {
-    'C01': 'another file of a different machine opened meanwhile, pickle / deep copy of the object, BytesIO / minimal / mmap / real-file streams, enumerations consumed step by step, header tables and sections beyond 2^31 / 2^32 (sparse files), linked tables at section indices >= 0xff00',
-    'C02': 'partially consumed address_offsets generators, placement beyond 2^31 / 2^32 / 2^62 (sparse files), MiB-sized maximally redundant compressed payloads, four stream kinds, decoding in a child interpreter under the C locale without UTF-8 mode',
-    'C03': 'results modified by the caller before the lookup is repeated, tables at section indices >= 0xff00, far tables and st_name >= 2^31 (sparse files), GNU hash bucket groups in permuted order, step-by-step walks, four stream kinds',
-    'C04': 'units of 16 MiB, 64-bit section offsets beyond 4 GiB (sparse streams), step-by-step walks with moved streams, minimal streams',
+    'C01': 'another file of a different machine opened meanwhile, pickle / deep copy of the object, BytesIO / minimal / mmap / real-file / gzip-wrapped / tar-member streams, enumerations consumed step by step, header tables and sections beyond 2^31 / 2^32 (sparse files), linked tables at section indices >= 0xff00',
+    'C02': 'partially consumed address_offsets generators, placement beyond 2^31 / 2^32 / 2^62 (sparse files), MiB-sized maximally redundant compressed payloads, six stream kinds (incl. a gzip wrapper whose fileno() belongs to the compressed file and a tar member), decoding in a child interpreter under the C locale without UTF-8 mode',
+    'C03': 'results modified by the caller before the lookup is repeated, tables at section indices >= 0xff00, far tables and st_name >= 2^31 (sparse files), GNU hash bucket groups in permuted order, step-by-step walks, the first use of a fresh table object (abandoned walk / look-ups first / look-ups inside the first walk), six stream kinds',
+    'C04': 'ref_addr followed from .debug_types units into .debug_info, units of 16 MiB, 64-bit section offsets beyond 4 GiB (sparse streams), step-by-step walks with moved streams, minimal streams',
     'C05': 'unit version drawn independently of the table version, supplementary object file attached, programs at .debug_line offsets beyond 2^32 (sparse streams)',
-    'C06': 'augmentation data longer than the known fields, pc-relative pointers given by their encoded displacement (0 included), extended-length CIEs in .eh_frame',
-    'C07': 'enumerations consumed step by step while other lists are fetched, unit address size different from the file pointer size, both section generations in one file (colliding offsets)',
-    'C08': 'table walks consumed step by step with other stream users in between, the relocation switch followed through a .gnu_debuglink',
-    'C09': 'deep-copied file objects, OS ABI drawn independently of the machine, step-by-step walks',
-    'C10': 'fixtures with a unit of unsupported version (failed queries inside the history) and with a duplicated type-unit signature, null-entry lookups, 14 kinds of suspended generators, histories on minimal streams',
-    'C11': 'stray .gnu_debuglink in unstripped containers, on-disk layouts reached through load_from_path via real path and directory symlink',
+    'C06': 'augmentation data longer than the known fields, pc-relative pointers given by their encoded displacement (0 included), extended-length CIEs in .eh_frame, DW_EH_PE_omit as declared LSDA encoding',
+    'C07': 'enumerations consumed step by step while other lists are fetched, unit address size different from the file pointer size, both section generations in one file (colliding offsets), every kind of v5 unit (type and split units included) as owner of list attributes',
+    'C08': 'table walks consumed step by step with other stream users in between, tables first met by a walk that is given up, the relocation switch followed through a .gnu_debuglink',
+    'C09': 'deep-copied file objects, OS ABI drawn independently of the machine, step-by-step walks, GNU hash bucket groups in permuted order, the first use of a fresh view object (abandoned tag / symbol walk, look-ups first)',
+    'C10': 'fixtures with a unit of unsupported version (failed queries inside the history) and with a duplicated type-unit signature, null-entry lookups, 14 kinds of suspended generators, histories on minimal streams, fixtures whose units of different version / offset size / address size share one abbreviation table',
+    'C11': 'stray .gnu_debuglink in unstripped containers, on-disk layouts reached through load_from_path via real path and directory symlink, supplementary links composed with compressed / .zdebug containers of the main and the supplementary file',
     'C12': 'the same bytes parsed by the sibling configuration first, results modified by the caller before the same bytes are parsed again',
-    'C13': 'units beyond 4 GiB on sparse streams, unused bytes behind the terminator of name-table sets',
-    'C14': 'step-by-step walks with other stream users in between, four stream kinds',
-    'C15': 'several consumers of one section object at once (also as its first use), displacements >= 2^31 in a sparse file, entries sharing the head of an auxiliary chain, four stream kinds',
+    'C13': 'units beyond 4 GiB on sparse streams, unused bytes behind the terminator of name-table and address-range sets',
+    'C14': 'step-by-step walks with other stream users in between, six stream kinds, alignment fields (sh_addralign / p_align) drawn independently of the 4-byte padding',
+    'C15': 'several consumers of one section object at once (also as its first use), displacements >= 2^31 in a sparse file, entries sharing the head of an auxiliary chain, six stream kinds',
     'C16': 'string lengths around every power of two up to 128 KiB, declared block lengths at the sign / width boundaries of each prefix',
-    'C18': 'every ordered pair of location-changing CFA instructions, empty sections on segment edges, nested expressions with unit-referring operations in a first and a second unit',
-    'C19': 'extended-numbering escape triples, an allocation-peak bound (tracemalloc) for allocations that bypass the stream, the constructor on real files, memory maps and minimal streams',
-    'C20': 'a companion file of the opposite byte order opened and queried while the first is in use',
+    'C18': 'every ordered pair of location-changing CFA instructions, empty sections on segment edges, nested expressions with unit-referring operations in a first and a second unit, interpreter extents with bytes behind the terminator',
+    'C19': 'extended-numbering escape triples, an allocation-peak bound (tracemalloc) for allocations that bypass the stream, the constructor on real files, memory maps, minimal, gzip-wrapped and tar-member streams',
+    'C20': 'a companion file of the opposite byte order opened and queried while the first is in use, handler tables split over .ARM.extab and a second section of another name',
 }
 
 
